@@ -144,8 +144,7 @@ def classify(spec, batch, cases, results, report):
                 report.samples.append(spec.show(c))
 
 
-def _run_one(spec, scratch, binary, b, cases, tag):
-    cfg = write_config(scratch, b.name, b.config) if b.config is not None else None
+def _run_one(spec, scratch, binary, b, cases, tag, cfg):
     results, info = run_both(scratch, binary, cases, cfg_home=cfg, timeout=b.timeout, extra_env=b.env, tag=tag)
     info["batch"] = tag
     info["cases"] = len(cases)
@@ -164,8 +163,11 @@ def run_batches(spec, scratch, binary, batches, report, shards=12):
             parts = [b.cases[i::n] for i in range(n)]
         else:
             parts = [b.cases]
+        # the configuration file is written ONCE per batch, before any shard starts: shards rewriting it concurrently let a
+        # starting harness read an empty file, i.e. run with the built-in defaults
+        cfg = write_config(scratch, b.name, b.config) if b.config is not None else None
         with ThreadPoolExecutor(max_workers=len(parts)) as ex:
-            futs = [ex.submit(_run_one, spec, scratch, binary, b, part, "%s.%d" % (b.name, i)) for i, part in enumerate(parts)]
+            futs = [ex.submit(_run_one, spec, scratch, binary, b, part, "%s.%d" % (b.name, i), cfg) for i, part in enumerate(parts)]
             outs = [f.result() for f in futs]
         for part, (results, info) in zip(parts, outs):
             report.batch_info.append(info)
@@ -342,11 +344,17 @@ def main_check(spec, tier, replay=None):
             if broken:
                 kind, what, detail = broken[0]
                 cases_json = []
+                extra = {}
                 if report.mismatches:
-                    cases_json = [sorted(report.mismatches, key=lambda t: len(t[0].args))[0][0].to_json()]
+                    c0, r0, _ = sorted(report.mismatches, key=lambda t: len(t[0].args))[0]
+                    cases_json = [c0.to_json()]
+                    a, b = r0.get("impl") or [], r0.get("model") or []
+                    k = next((i for i in range(min(len(a), len(b))) if a[i] != b[i]), min(len(a), len(b)))
+                    extra = {"impl": a, "model": b, "first_difference": k, "panic": r0.get("panic"),
+                             "impl_around": a[max(0, k - 40):k + 40], "model_around": b[max(0, k - 40):k + 40]}
                 path = write_replay(spec.pid, kind, {
                     "no_longer_checks": what, "detail": detail[-6000:], "all_broken": [(k, w) for k, w, _ in broken],
-                    "cases": cases_json,
+                    "cases": cases_json, **extra,
                     "note": "no input was found on which the property itself fails; the theorem or correspondence "
                             "named here no longer checks, so the property is no longer shown to hold"})
                 violations.append("VIOLATION property=%s replay=%s no-failing-input-found" % (spec.pid, path))
